@@ -45,7 +45,7 @@ def run(tier):
 
     def add(c, start, prog_lines, prog_hex, pre_cmds=(), tag="grid"):
         lens = [len(h) // 2 for h in prog_hex]
-        total_max = sum(lens) + len(lens) * c + 64
+        total_max = sum(lens) + len(lens) * 16 + 64  # a pad is always shorter than the instruction it precedes
         cmds = ["new 0 ext %d H 0xcc" % (start + total_max + 32)] + list(pre_cmds) + ["chunk 0 %d" % c, "setoff 0 %d" % start,
                 "asm 0 %s" % common.hx("\n".join(prog_lines)), "getoff 0", "dump 0 %d %d" % (start, start + total_max)]
         cases.append(cmds)
